@@ -12,7 +12,7 @@ CHECKS = {
    technique="TLA+ model (TLC exhaustive) + replay of every enumerated case into the real verifier and client"),
 
  "C02": dict(cat="model_checking", design="5 C02",
-   text="TufClient.tla models the root walk of load_root action by action; MC_RootChain lets the server answer every request for a newer root with any key configuration, any signer set, a version one lower/equal/one higher, unparsable, oversized, endless or failing streams, and signs later roles with online keys of any epoch. TLC checks WalkDoublySigned, WalkEndsAtRoot, NeverBelowShipped, RootReqsConsecutive, ShippedMustSelfVerify, TrustedVerified on every state; every TLC path is replayed through RepositoryLoader::load with real keys (Ed25519, ECDSA, RSA) and the recorded trace (requests, served documents, result, versions, datastore) is validated by TLC against the same actions (Trace_Client strict), falling back to the observational restatement of the property for traces the model cannot explain.",
+   text="TufClient.tla models the root walk of load_root action by action; MC_RootChain lets the server answer every request for a newer root with any key configuration, any signer set, a version one lower/equal/one higher, unparsable, oversized, endless or failing streams, and signs later roles with online keys of any epoch. TLC checks WalkDoublySigned, WalkEndsAtRoot, NeverBelowShipped, RootReqsConsecutive, ShippedMustSelfVerify, TrustedVerified on every state; every TLC path is replayed through RepositoryLoader::load with real keys (Ed25519, ECDSA, RSA) and the recorded trace (requests, served documents, result, versions, datastore) is validated by TLC against the same actions (Trace_Client strict), falling back to the observational restatement of the property for traces the model cannot explain. The repository's own fixtures (tough/tests/data: tuf-reference-impl, consistent-snapshots, rotated-root, dubious-role-names, expired-repository with and without enforcement, safe-target-paths) are loaded twice each by the real client through the recording transport; an abstraction function maps the real RSA / Ed25519 documents to model records (signatures re-verified by the harness), and the traces are validated against TufClient in both modes; a copy with one recorded version changed must be rejected.",
    note="Trusted: TLC, signer-set abstraction of signatures, harness canonical JSON/signing. Chains up to 4 published versions (check) / 2-3 (replay), 4 key configurations.",
    technique="TLA+ model (TLC exhaustive) + replay of every behaviour into the real client + TLC trace validation"),
  "C03": dict(cat="model_checking", design="5 C03",
@@ -24,7 +24,7 @@ CHECKS = {
    note="Trusted: TLC, the clock hook (adds a scripted offset inside Datastore::system_time), expiry instants placed strictly between ticks so that <= vs < at the boundary is not exercised.",
    technique="TLA+ model (TLC exhaustive) + replay with scripted clock + TLC trace validation"),
  "C05": dict(cat="model_checking", design="5 C05",
-   text="TufClient.tla with pins (version, digest as file identity, length) and byte variants; MC_Pins combines any published timestamp pin with any published snapshot/targets file (version, spelling, size). TLC checks PinsMatch and ConsistentNames; every path is replayed and the recorded requests and results validated by TLC.",
+   text="TufClient.tla with pins (version, digest as file identity, length) and byte variants; MC_Pins combines any published timestamp pin with any published snapshot/targets file (version, spelling, size). TLC checks PinsMatch and ConsistentNames; every path is replayed and the recorded requests and results validated by TLC. The repository's own fixtures (tough/tests/data: tuf-reference-impl, consistent-snapshots, rotated-root, dubious-role-names, expired-repository with and without enforcement, safe-target-paths) are loaded twice each by the real client through the recording transport; an abstraction function maps the real RSA / Ed25519 documents to model records (signatures re-verified by the harness), and the traces are validated against TufClient in both modes; a copy with one recorded version changed must be rejected.",
    note="Trusted: TLC, SHA-256 modelled as injective, harness padding/re-spelling of files. Delegated-role pins are covered by the delegation module (C07/C09), not here.",
    technique="TLA+ model (TLC exhaustive) + replay + TLC trace validation"),
  "C09": dict(cat="model_checking", design="5 C09",
